@@ -196,7 +196,11 @@ def run_a(tier, k=0, n=1):
         S = 12 * octave + base_t(L) + A + sign * s
         L2, O2 = D % 7, D / 7
         A2 = S - (12 * O2 + base_t(L2))
-        out = transposed(name_i, octave, z3.IntVal(raw), up)
+        try:
+            out = transposed(name_i, octave, z3.IntVal(raw), up)
+        except pz.Unsupported as e:
+            q.unsupported(f'to_transposed/get_chroma: {e}')
+            break
         gn, go = out['name'], out['octave']
         spellable = z3.And(A2 >= -2, A2 <= 2)
         # (1) exact arithmetic where spellable; KeyError only where not spellable
@@ -233,7 +237,7 @@ def run_a(tier, k=0, n=1):
     pts = [('C', 4, 'P5', True), ('F+', 3, 'm3', False), ('B-', 2, 'A4', True), ('E--', -3, 'dd7', False), ('G++', 11, 'AA2', True)]
     for _ in range(200 // n + 1):
         pts.append((rnd.choice(DOM), rnd.randint(-30, 30), rnd.choice([n for n in INAMES if n in tr.IntervalsByName]), rnd.random() < 0.5))
-    for nm, o, iname, u in pts:
+    for nm, o, iname, u in (pts if q.unknown == 0 else []):
         n_pts += 1
         out = transposed(z3.IntVal(NIDX[nm]), z3.IntVal(o), z3.IntVal(tr.IntervalsByName[iname]), z3.BoolVal(u))
         tn = z3.simplify(out['name']).as_long()
